@@ -12,6 +12,9 @@
 3. monitors, directly on the real objects after every step of every schedule: mutual exclusion, bookkeeping and
    `locked`, no lost wake-up, no deadlock, no exception, per-key exclusion / FIFO / dict-entry hygiene; plus real
    threads on the real `threading` and real processes on the real `flock`.
+4. deployments: the processes of the file-lock system are server INSTANCES -- real multifilesystem.Storage objects built
+   by the real constructor from a generated matrix of configurations that share one filesystem_folder (kind "store");
+   which file each instance flocks is compared with Model/C11LockIdent.v (lock_path: a function of the folder only).
 """
 import concurrent.futures
 import itertools
@@ -47,6 +50,10 @@ HEADER_DICT = """From Coq Require Import List ZArith Bool Uint63.
 Import ListNotations.
 Require Import RV.Model.C11Base RV.Model.RwLockCond RV.Model.LockDict.
 Open Scope Z_scope.
+"""
+HEADER_IDENT = """From Coq Require Import List NArith Bool.
+Import ListNotations.
+Require Import RV.Lib.PyStr RV.Model.C11LockIdent.
 """
 
 
@@ -222,6 +229,11 @@ def run_app_driver(ctx, mode, nreq):
         shutil.rmtree(base, ignore_errors=True)
 
 
+def threads_of(progs):
+    """The thread programs of a task: `progs` itself, or its second component in the ("tag", threads, ...) forms."""
+    return progs[1] if (progs and isinstance(progs[0], str)) else progs
+
+
 def enc_progs(kind, progs):
     if kind == "cond":
         return "[%s]" % ";".join(enc_zl([cyc(c) for c in p]) for p in progs)
@@ -352,6 +364,23 @@ def work_list(ctx):
             E("cond", [p + [("w", 0)] for p in progs])
         E("dict", [[5, 5], [5, 7], [7, 5]])
         E("dict", [[5, 5], [5, 5], [5, 5]])
+    # ---- deployments: several real multifilesystem.Storage objects (= server instances / processes) serving ONE
+    # filesystem_folder, each built by the real constructor from its own legal configuration (matrix: different / same /
+    # no cache folder, cache-subfolder options, umask, spelling of the folder); the lock is entered through
+    # Storage.acquire_lock; compared with RwLockFile.v (ONE kernel lock for all processes, see Model/C11LockIdent.v)
+    scap, skeep, sextra = ctx.n(120, 400), ctx.n(50, 200), ctx.n(30, 100)
+    deps = X.base_deployments() + [[X.random_conf(rng) for _ in range(2)] for _ in range(ctx.n(4, 16))]
+    for k, dep in enumerate(deps):
+        sets = [[(0, [("w", 1)]), (1, [("w", 0)])], [(0, [("r", 1)]), (1, [("w", 1)])]]
+        if not ctx.quick or k % 4 == 0:
+            sets.append([(0, [("r", 1)]), (1, [("r", 1), ("w", 0)])])
+        for threads in sets:
+            W.append(("enum", "store", ("deploy", threads, dep), (scap, skeep, sextra, rng.randrange(10 ** 9))))
+    for _ in range(ctx.n(4, 16)):                                        # three / four instances, threads sharing instances
+        n = rng.choice([3, 3, 4])
+        dep = [X.random_conf(rng) for _ in range(n)]
+        threads = [(rng.randrange(n), [(rng.choice("rw"), rng.choice([0, 1]))]) for _ in range(n)]
+        W.append(("rand", "store", ("deploy", threads, dep), (ctx.n(60, 300), rng.randrange(10 ** 9))))
     return W
 
 
@@ -362,7 +391,7 @@ def run_task(task):
     seen = set()
     contended = 0
     steps = 0
-    nthreads = len(progs[1]) if (progs and isinstance(progs[0], str)) else len(progs)
+    nthreads = len(threads_of(progs))
     exhausted = False
     fileops = set()
 
@@ -592,10 +621,16 @@ def stress_sweep_real(ctx, rounds):
         shutil.rmtree(base, ignore_errors=True)
 
 
-def stress_processes(ctx, n_procs, n_cycles, n_threads=2):
+def stress_processes(ctx, n_procs, n_cycles, n_threads=2, deployment=None):
+    """Real processes on the real flock.  deployment=None: every process owns RwLock(<one lock file>); otherwise process
+    i is a server instance: the real Storage built from configuration i (mod len) of the deployment, all over one
+    filesystem_folder, the lock entered through Storage.acquire_lock."""
     base = tempfile.mkdtemp(prefix="rv-c11-")
     try:
         lockfile = os.path.join(base, ".Radicale.lock")
+        first = [lockfile] * n_procs
+        if deployment is not None:
+            first = [json.dumps(X.storage_options(base, deployment[i % len(deployment)])) for i in range(n_procs)]
         statefile = os.path.join(base, "state")
         guardfile = os.path.join(base, "guard")
         with open(statefile, "w") as f:
@@ -603,7 +638,7 @@ def stress_processes(ctx, n_procs, n_cycles, n_threads=2):
         open(guardfile, "w").close()
         drv = os.path.join(core.VERIF, "vlib", "drivers", "c11_flock_driver.py")
         env = dict(os.environ, PYTHONPATH=core.REPO, VERIF_REPO=core.REPO)
-        ps = [subprocess.Popen([core.PY, drv, lockfile, statefile, guardfile, str(n_cycles), str(ctx.seed * 100 + i), str(n_threads)],
+        ps = [subprocess.Popen([core.PY, drv, first[i], statefile, guardfile, str(n_cycles), str(ctx.seed * 100 + i), str(n_threads)],
                                stdout=subprocess.PIPE, stderr=subprocess.PIPE, env=env, text=True) for i in range(n_procs)]
         out = []
         for p in ps:
@@ -634,12 +669,65 @@ def stress_processes(ctx, n_procs, n_cycles, n_threads=2):
         shutil.rmtree(base, ignore_errors=True)
 
 
+def lock_identity(ctx):
+    """Tie K for Model/C11LockIdent.v: for every configuration of the deployment matrix the file that the REAL storage
+    lock opens and flock()s (recorded at open/flock of a real acquisition on the real Storage) is compared with
+    `lock_path` of the model evaluated on the options as the code reads them; and, directly: all instances of one
+    deployment flock one file."""
+    base = tempfile.mkdtemp(prefix="rv-c11id-")
+    try:
+        rng = random.Random(ctx.seed * 131 + 7)
+        deps = X.base_deployments() + [[X.random_conf(rng) for _ in range(rng.choice([2, 3]))] for _ in range(ctx.n(15, 200))]
+        rel = lambda path: path.replace(base, "/B")       # noqa: E731
+        cases, seen = [], set()
+        first_bad = None
+        for dep in deps:
+            files = []
+            for c in dep:
+                c = X.conf_norm(c)
+                real, folder, cache = X.real_lock_path(base, c)
+                files.append(os.path.realpath(real))
+                key = json.dumps(c, sort_keys=True)
+                if key not in seen:
+                    seen.add(key)
+                    cases.append(((rel(folder), rel(cache), [ch == "1" for ch in c["sub"]] + [bool(c["mtime"])], c["umask"]), rel(real)))
+                    ctx.count("lock-identity:cache=%s" % ("yes" if c["cache"] else "no"))
+            if len(set(files)) != 1 and first_bad is None:
+                first_bad = (dep, files)
+        ctx.count("lock-identity:deployments", len(deps))
+        if first_bad is not None:
+            dep, files = first_bad
+            ctx.violation("C11 lock identity: instances serving one filesystem_folder flock different files: %s" % ", ".join(
+                "%s -> %s" % (json.dumps(X.conf_norm(c), sort_keys=True), rel(f)) for c, f in zip(dep, files)),
+                dict(kind="store", programs=["deploy", [[0, [["w", 1]]], [1, [["w", 0]]]], dep[:2] if len(set(files[:2])) > 1 else dep],
+                     schedule=[0, 0, 0, 1], deployment=dep, lock_files=[rel(f) for f in files],
+                     note="./check C11 --replay <this file> runs a writer of instance 0 and a writer of another instance on the "
+                          "real Storage objects of this deployment"))
+
+        def enc_in(i):
+            f, c, fl, u = i
+            return "(%s, %s, (%s, %s, %s, %s), %s)" % (core.enc_str(f), core.enc_str(c), core.enc_bool(fl[0]), core.enc_bool(fl[1]),
+                                                       core.enc_bool(fl[2]), core.enc_bool(fl[3]), core.enc_str(u))
+        bad = ctx.diff_cases("c11_ident", HEADER_IDENT, "lock_path_case", cases, enc_in, core.enc_str, "eqs", shard=100)
+        if bad is not None:
+            detail = ""
+            if bad:
+                i, o = cases[bad[0]]
+                detail = ("the real storage lock flocks another file than Model/C11LockIdent.v (lock_path) on %d of %d configurations; "
+                          "first: filesystem_folder=%r filesystem_cache_folder=%r -> real %r" % (len(bad), len(cases), i[0], i[1], o))
+            ctx.obligation("correspondence:lock-identity", not bad, detail)
+    finally:
+        shutil.rmtree(base, ignore_errors=True)
+
+
 # ------------------------------------------------------------------------------------------ the check
 def run(ctx):
     ctx.rule = ("one case = one complete schedule (list of thread numbers, one entry per blocking primitive) of a fixed set of "
                 "thread programs on one of the three real lock classes; exhaustive for 2 threads x 2 cycles and 3 threads x 1 "
                 "cycle (all mode / process / key combinations up to symmetry), sampled for 3 x 2 and 4 x 1; distinct by "
-                "(lock, programs, schedule); non-trivial = at least one thread was blocked during the first half of the run")
+                "(lock, programs, schedule); non-trivial = at least one thread was blocked during the first half of the run; "
+                "kind store: the processes are real Storage objects of a deployment (systematic pairs of configurations sharing "
+                "one filesystem_folder + seeded random configurations)")
     ctx.assumptions += [
         "kernel: flock grants LOCK_SH iff no LOCK_EX is held by another open file description, LOCK_EX iff none at all; "
         "locks of separate descriptors of one process conflict; close() drops the lock; flock does not fail with OSError",
@@ -672,14 +760,19 @@ def run(ctx):
             ctx.count("schedules:%s:%s" % (kind, tkind), len(cases))
             ctx.count("schedules:%s:threads=%d" % (kind, len(progs[1]) if isinstance(progs[0], str) else len(progs)), len(cases))
             if tkind == "enum":
-                ctx.count("programs-%s:%s:%dx%d" % ("exhausted" if st["exhausted"] else "capped", kind, len(progs),
-                                                    max(len(p[1]) if kind == "file" else len(p) for p in progs)))
+                thrs = threads_of(progs)
+                ctx.count("programs-%s:%s:%dx%d" % ("exhausted" if st["exhausted"] else "capped", kind, len(thrs),
+                                                    max(len(p[1]) if kind in ("file", "store") else len(p) for p in thrs)))
+            if kind == "store":
+                ctx.count("deployments:%s" % json.dumps([X.conf_norm(c) for c in progs[2]], sort_keys=True))
             nthr = len(progs[1]) if isinstance(progs[0], str) else len(progs)
             for sched, trace, cont in cases:
                 ctx.case((kind, repr(progs), tuple(sched)), nontrivial=cont,
                          sample=dict(lock=kind, programs=progs, schedule=sched) if len(ctx.samples) < 6 and cont and len(sched) > 12 else None)
                 faulty = kind == "file" and any(len(c) > 2 and c[2] == 2 for _, prog in progs for c in prog)
-                if kind not in ("comp", "sweep") and not faulty and not (kind == "cache" and isinstance(progs[0], str)):
+                if kind == "store":        # same observation vector as "file": compared with RwLockFile.v
+                    per_kind["file"].append(((progs[1], sched), trace))
+                elif kind not in ("comp", "sweep") and not faulty and not (kind == "cache" and isinstance(progs[0], str)):
                     # (the composition and the storage-lock-held variant are monitored only)
                     per_kind[kind].append(((progs, sched), trace))
             if violation is not None and first_violation is None:
@@ -725,6 +818,9 @@ def run(ctx):
             detail += " ; first difference: %r" % (where,)
         ctx.obligation("correspondence:%s" % kind, ok, detail)
 
+    # ---------------------------------------------------------------- which file is flocked (Model/C11LockIdent.v)
+    lock_identity(ctx)
+
     # ---------------------------------------------------------------- one lock object per process (nolock back-end)
     probs = source_one_application()
     ctx.obligation("source:one-Application-per-process", not probs, "; ".join(probs))
@@ -768,6 +864,18 @@ def run(ctx):
     if v:
         ctx.violation("C11 real processes on flock: " + v, dict(kind="real-processes", processes=8, cycles=ctx.n(100, 600), seed=ctx.seed,
                                                                  note="non-deterministic; re-run ./check C11"))
+    # the same with real server instances: every process builds its Storage from its own configuration of a deployment
+    drng = random.Random(ctx.seed * 31 + 5)
+    deps = X.base_deployments()
+    deps = [deps[1]] + drng.sample(deps, ctx.n(1, 4)) + [[X.random_conf(drng) for _ in range(4)] for _ in range(ctx.n(1, 4))]
+    for dep in deps:
+        v, tot = stress_processes(ctx, max(4, len(dep)), ctx.n(50, 400), deployment=dep)
+        ctx.count("real-deployment-cycles", tot.get("cycles", 0))
+        if v:
+            ctx.violation("C11 real processes, instances of one store %s: %s" % (json.dumps([X.conf_norm(c) for c in dep]), v),
+                          dict(kind="real-deployment", deployment=dep, processes=max(4, len(dep)), cycles=ctx.n(50, 400), seed=ctx.seed,
+                               note="non-deterministic; re-run ./check C11"))
+            break
 
 
 def replay(ctx, path):
@@ -784,6 +892,8 @@ def replay(ctx, path):
         progs = [[tuple(c) for c in prog] for prog in progs]
     elif kind == "cache" and progs and isinstance(progs[0], str):
         progs = (progs[0], progs[1])
+    elif kind == "store":
+        progs = (progs[0], [(p, [tuple(c) for c in prog]) for p, prog in progs[1]], progs[2])
     r = X.run_schedule(kind, progs, rp["schedule"], monitor=True, extend=False)
     for i, o in enumerate(r["trace"]):
         print("step %2d %s-> %s" % (i, ("thread %d " % r["schedule"][i - 1]) if 0 < i <= len(r["schedule"]) else "init     ", o))
